@@ -7,13 +7,16 @@ import dispatch_common as dc
 
 RESP_OK = ("base", 201, None, "text/plain", "replaced")
 BEFORE_BEH = [("ret", ("none",)), ("abort", 403), ("abort", 418),
+              ("abort", 599),         # a code without a reason phrase
               ("abortresp", ("base", 200, None, "text/plain", "stopped")),
               ("throw", 1), ("exit",)]
 AFTER_BEH = [("pass",), ("ret", ("resp", RESP_OK)), ("abort", 404),
+             ("abort", 599),
              ("abortresp", ("base", 200, None, "text/plain", "after-abort")),
              ("throw", 3), ("ret", ("none",)), ("ret", ("obj",))]
 ENDPOINT_BEH = [("ret", ("str", "ok")), ("ret", ("none",)), ("ret", ("obj",)),
                 ("abort", 403), ("abort", 0), ("throw", 5), ("throw", 6),
+                ("abort", 420), ("abort", 409),
                 ("abortresp", ("base", 202, None, "text/plain", "ar")),
                 ("throw", 1), ("throw", 3), ("conn",),
                 ("ret", ("resp", ("nocontent", 204, None)))]
